@@ -305,6 +305,11 @@ def _still_called(fn, name) -> bool:
     return any(isinstance(n, ast.Name) and n.id == name and isinstance(n.ctx, ast.Load) for n in ast.walk(fn))
 
 
+def _pure_expr(v) -> bool:
+    from .sem import is_pure
+    return is_pure(v)
+
+
 class Inliner:
     def __init__(self, model, rel, owner_cls, stack=()):
         self.m, self.rel, self.cls, self.stack = model, rel, owner_cls, stack
@@ -333,7 +338,7 @@ class Inliner:
                         return s, f.value, kind
         return None
 
-    def _bind(self, callee, call, recv, kind):
+    def _bind(self, callee, call, recv, kind, expr_mode=False):
         """-> (prefix assignments, rename mapping) or None if the call cannot be bound simply."""
         a = callee.args
         if a.vararg or a.kwarg or a.posonlyargs and False:
@@ -375,6 +380,8 @@ class Inliner:
                 mapping[p] = v.id
             elif isinstance(v, (ast.Constant, ast.Attribute)) and p not in assigned and not any(isinstance(x, ast.Call) for x in ast.walk(v)):
                 mapping[p] = v
+            elif expr_mode and p not in assigned and _pure_expr(v):
+                mapping[p] = v                      # a pure argument can be substituted wherever the parameter is read
             else:
                 prefix.append(_loc(ast.Assign(targets=[ast.Name(id=p, ctx=ast.Store())], value=copy.deepcopy(v)), call))
         return prefix, mapping
@@ -529,7 +536,7 @@ class Inliner:
                         real = [ast.Return(value=_expand(callee, real[-1].value))]
                 if len(real) != 1 or not isinstance(real[0], ast.Return) or real[0].value is None:
                     return n
-                b = self._bind(callee, n, recv, kind)
+                b = self._bind(callee, n, recv, kind, expr_mode=True)
                 if b is None or b[0]:
                     return n
                 e = copy.deepcopy(real[0].value)
